@@ -31,7 +31,7 @@ Followed(u, s) ==     \* a site that points into another location and was nevert
 RemoteSatisfied(u, s) ==
    LET rs == {r \in AllRefs(u) : RefText(r) = s.ref} IN
    rs # {} /\ s.owner \in KnownIds(u) /\ s.got # "nil"
-   /\ LET r == CHOOSE x \in rs : TRUE IN IsRemote(TargetFile(FileOfId(u, s.owner), r))
+   /\ LET r == CHOOSE x \in rs : TRUE IN IsUnserved(TargetFile(FileOfId(u, s.owner), r))
 
 Failed(line) ==
    LET u == line.c.u
